@@ -1,0 +1,51 @@
+/*!
+Verification hooks (cargo feature `verif`).
+
+Thin, add-only wrappers that expose crate-private entry points to the external verification
+harness. Nothing here is compiled unless the `verif` feature is enabled.
+*/
+#![allow(missing_docs, missing_debug_implementations)]
+
+use std::path::Path;
+use std::sync::Arc;
+
+use crate::fs::FileSystem;
+use crate::logs::{LogReader, LogWriter};
+
+/// Open a log writer on `path` (append mode or truncating) and append `records` in order.
+///
+/// Returns one result per record; stops at the first failure.
+pub fn log_write(
+    fs: Arc<dyn FileSystem>,
+    path: &Path,
+    is_appending: bool,
+    records: &[Vec<u8>],
+) -> Result<Vec<Result<(), String>>, String> {
+    let mut writer = LogWriter::new(fs, path, is_appending).map_err(|e| e.to_string())?;
+    let mut results = Vec::with_capacity(records.len());
+    for record in records {
+        let res = writer.append(record).map_err(|e| e.to_string());
+        let failed = res.is_err();
+        results.push(res);
+        if failed {
+            break;
+        }
+    }
+    Ok(results)
+}
+
+/// Read every record of the log at `path` until end of file or the first hard error.
+pub fn log_read_all(
+    fs: Arc<dyn FileSystem>,
+    path: &Path,
+) -> Result<(Vec<Vec<u8>>, Option<String>), String> {
+    let mut reader = LogReader::new(fs, path, 0).map_err(|e| e.to_string())?;
+    let mut records = vec![];
+    loop {
+        match reader.read_record() {
+            Ok((_, true)) => return Ok((records, None)),
+            Ok((data, false)) => records.push(data),
+            Err(e) => return Ok((records, Some(e.to_string()))),
+        }
+    }
+}
